@@ -15,6 +15,11 @@ import numpy as np
 from harness.core import PropertyCheck
 from harness.util import Snapshot, all_close, cmp_rats, fr, frs, plist, parse_rats
 
+def enc(name):
+    """protocol-safe spelling of a column name (the model only appends [a-z0-9_] suffixes)"""
+    return "".join(ch if (ch.isalnum() or ch == "_") else "%%%02X" % ord(ch) for ch in name)
+
+
 HRFS = ["canonical", "canonical with derivative", "spm", "spm_time", "spm_time_dispersion", "fir"]
 NK = {"canonical": 1, "canonical with derivative": 2, "spm": 1, "spm_time": 2,
       "spm_time_dispersion": 3}
@@ -96,7 +101,8 @@ class C07(PropertyCheck):
             evs = []
             for c in range(ncond):
                 on, du, am = _events(rng, n, tr, kind)
-                evs.append({"name": rng.choice(["a", "b", "c1", "cond_x", "face", "house"]) + str(c),
+                evs.append({"name": rng.choice(["a", "b", "c1", "cond_x", "face", "house", "face,upright", "a b",
+                                                    'say "x"', "semi;colon", "tab\there", "x'y", "1.5", "é"]) + str(c),
                             "onsets": on, "durs": du, "amps": am})
             cases.append({"kind": "dmtx", "n": n, "tr": tr, "hrf": rng.choice(HRFS), "ptype": kind,
                           "conds": evs, "fir_delays": sorted(rng.sample(range(0, 6), rng.choice([1, 2, 4]))),
@@ -229,7 +235,8 @@ class C07(PropertyCheck):
             par = BlockParadigm(ids, on, du, amp)
         rs = np.random.RandomState(c["n"] * 7 + c["nadd"])
         add = rs.randint(-4, 5, size=(c["n"], c["nadd"])).astype(float) if c["nadd"] else None
-        addn = [f"mot{k}" for k in range(c["nadd"])] if (c["named_add"] and c["nadd"]) else None
+        addn = [["mot", "trans,x", "rot y", "reg;z"][k % 4] + str(k) for k in range(c["nadd"])] \
+            if (c["named_add"] and c["nadd"]) else None
         snap = Snapshot(ft=ft, add=add if add is not None else 0)
         try:
             d = dm.make_dmtx(ft, par, c["hrf"], c["drift"], c["hfcut"], c["order"], c["fir_delays"],
@@ -245,8 +252,8 @@ class C07(PropertyCheck):
         conds = sorted({cd["name"] for cd in c["conds"]})
         hrf_tok = c["hrf"].replace(" ", "_")
         addnames = addn if addn is not None else [f"reg{k}" for k in range(c["nadd"])]
-        line = (f"names {hrf_tok} {len(conds)} {' '.join(conds)} {plist(c['fir_delays'])} "
-                f"{len(addnames)} {' '.join(addnames)} {nd}").replace("  ", " ")
+        line = (f"names {hrf_tok} {len(conds)} {' '.join(map(enc, conds))} {plist(c['fir_delays'])} "
+                f"{len(addnames)} {' '.join(map(enc, addnames))} {nd}").replace("  ", " ")
         fail = None
         if X.shape != (c["n"], len(names)):
             fail = f"make_dmtx: matrix shape {X.shape} vs {len(names)} names"
@@ -271,16 +278,19 @@ class C07(PropertyCheck):
             tmp = tempfile.mkdtemp(prefix="c07-")
             try:
                 p = os.path.join(tmp, "d.csv")
-                d.write_csv(p)
-                d2 = dm.dmtx_from_csv(p)
-                if list(d2.names) != list(names) or not np.array_equal(d2.matrix, X):
-                    fail = "CSV round trip does not reproduce names and values"
+                try:
+                    d.write_csv(p)
+                    d2 = dm.dmtx_from_csv(p)
+                    if list(d2.names) != list(names) or not np.array_equal(d2.matrix, X):
+                        fail = f"CSV round trip does not reproduce names and values (names {list(names)} -> {list(d2.names)})"
+                except Exception as e:
+                    fail = f"CSV round trip of names {list(names)} raised {type(e).__name__}: {e}"
             finally:
                 for f in os.listdir(tmp):
                     os.unlink(os.path.join(tmp, f))
                 os.rmdir(tmp)
         tags = ["dmtx", "drift=" + c["drift"], "hrf=" + hrf_tok, "ptype=" + c["ptype"]]
-        return {"lines": [line], "impl": [("names", list(names))], "oracle": fail,
+        return {"lines": [line], "impl": [("names", [enc(x) for x in names])], "oracle": fail,
                 "nontrivial": True, "tags": tags, "mutated": mut}
 
     def _polydrift(self, c, hm):
